@@ -62,7 +62,7 @@ let () =
       let total = bytes_of_hex data in
       let d = ref total in
       let out = Buffer.create 64 in
-      let step (r : 'a bres) (show : 'a -> string) =
+      let step : 'a. 'a bres -> ('a -> string) -> unit = fun r show ->
         match r with
         | BOk (v, rest) -> Buffer.add_string out (show v); Buffer.add_char out ' '; d := rest
         | BMore -> raise (Stop "MORE")
